@@ -245,6 +245,10 @@ func TestC15Auth(t *testing.T) {
 								synctest.Wait()
 								rep.Executions++
 								rep.States++
+								rep.Transitions++ // one request handled by the server
+								if rep.Executions%1499 == 1 {
+									rep.Sample(c15Case{Sources: sl, Keys: kl, Req: q, Source: sv, Key: kv}, 6)
+								}
 								if !allowed {
 									rep.Nontrivial++
 								}
@@ -391,7 +395,9 @@ func TestC15Recovery(t *testing.T) {
 		_, bad := run(at)
 		rep.Executions++
 		rep.States++
+		rep.Transitions += 5 // five probe requests
 		rep.Nontrivial++
+		rep.Sample(map[string]int{"recovery_step": at}, 3)
 		rep.Outcome("probed")
 		if bad != "" {
 			rep.Violate("", bad, map[string]int{"at": at})
